@@ -218,6 +218,10 @@ def getattr(I, st, v, name):
             else:
                 yield st, BoundMethod(m, v)
             return
+        if m is not None and not isinstance(m, FuncVal) and type(m).__name__ != "PropertyVal" and not name.startswith("_"):
+            # another member of the same enum reached through a member (self.OTHER): class attribute lookup
+            yield st, enum_member(I, st, v.cls, name)
+            return
     if isinstance(v, str):
         yield st, str_method(I, st, v, name)
         return
@@ -911,6 +915,15 @@ def call_builtin_class(I, st, c, args, kwargs):
             yield st, str(v)
         elif isinstance(v, Fraction):
             yield st, repr(float(v))
+        elif isinstance(v, M.EnumMember):
+            m, _ = I.class_lookup(v.cls, "__str__")
+            if isinstance(m, FuncVal):
+                yield from I.call(BoundMethod(m, v), [], {}, st)  # the enum's own __str__
+            elif (m is None and not any(I.class_lookup(v.cls, h)[0] is not None for h in ("__repr__", "__format__"))
+                  and [ast.unparse(b) for b in v.cls.node.bases] in (["enum.Enum"], ["Enum"])):  # not IntEnum / Flag / StrEnum
+                yield st, "%s.%s" % (v.cls.name, v.name)  # enum.Enum.__str__
+            else:
+                yield st, Opaque("str()")
         elif isinstance(v, Ref) and st.get(v).kind == "obj" and I.class_lookup(st.get(v).cls, "__str__")[0] is not None:
             # str(obj) is type(obj).__str__(obj)
             yield from I.call(BoundMethod(I.class_lookup(st.get(v).cls, "__str__")[0], v), [], {}, st)
